@@ -126,7 +126,11 @@ def are_joinable(
         if any_in_edges:
             return JoinableResult(False, "block2 has incoming edges")
 
-        if not cache.in_same_function(block1, block2):
+        # Blocks that are not part of any function can be joined with each
+        # other; in_same_function is deliberately False for them.
+        if cache.functions_by_block.get(
+            block1
+        ) != cache.functions_by_block.get(block2):
             return JoinableResult(False, "blocks are not in the same function")
 
         if cache.is_entry_block(block2):
